@@ -102,6 +102,53 @@ def run(v, tier, rng):
         ob = b["calls"][0]["out"] if b.get("calls") else "died"
         if oa != ob:
             v.violation("value depends on spacing", {"source_a": cases[i]["srcs"][0], "source_b": cases_t[sub.index(i)]["srcs"][0], "out_a": oa, "out_b": ob})
+    # immediates and displacements: the value that DD e produced (judged by the arithmetic spec above) must be the one
+    # encoded as immediate / displacement, wherever the constant terms stand among the registers
+    fails_set = set(fails)
+    dd_idx = [i for i in ok_idx if progs[i][1] == "dd" and i not in fails_set and len(res[str(i)]["calls"][0]["out"]) == 8]
+    if tier == "quick":
+        dd_idx = dd_idx[:120]
+    op_cases, op_meta = [], []
+    B32 = ("config", "BITS", ("num", 32))
+    for i in dd_idx:
+        e = progs[i][2]
+        raw = lib.hex2list(res[str(i)]["calls"][0]["out"])
+        val = raw[0] | raw[1] << 8 | raw[2] << 16 | raw[3] << 24
+        sval = val - (1 << 32) if val >= 1 << 31 else val
+        pe = ("add", ("mul", e, []), []) if e[0] != "add" else e           # e as a parenthesised primary
+        par = ("add", ("mul", pe, []), [])
+        lit = A.num(sval) if sval >= 0 else ("add", ("mul", ("num", 0), []), [("-", ("mul", ("num", -sval), []))])
+        def mem(parts):
+            return A.mem("", A.sum_of(parts))
+        dpart = ("+", ("num", sval)) if sval >= 0 else ("-", ("num", -sval))
+        variants = [
+            ("imm", [B32, ("mn", "MOV", [A.ident("ECX"), par])], [B32, ("mn", "MOV", [A.ident("ECX"), A.num(sval) if sval >= 0 else A.hexn(val)])]),
+            ("disp reg+e", [B32, ("mn", "MOV", [A.ident("ECX"), mem([("+", ("id", "EBX")), ("+", pe)])])], [B32, ("mn", "MOV", [A.ident("ECX"), mem([("+", ("id", "EBX")), dpart])])]),
+            ("disp e+reg", [B32, ("mn", "MOV", [A.ident("ECX"), mem([("+", pe), ("+", ("id", "EBX"))])])], [B32, ("mn", "MOV", [A.ident("ECX"), mem([("+", ("id", "EBX")), dpart])])]),
+            ("disp reg+e+reg", [B32, ("mn", "MOV", [mem([("+", ("id", "EBX")), ("+", pe), ("+", ("id", "ESI"))]), A.ident("DL")])],
+             [B32, ("mn", "MOV", [mem([("+", ("id", "EBX")), ("+", ("id", "ESI")), dpart]), A.ident("DL")])]),
+            ("disp 1+reg+e", [B32, ("mn", "ADD", [A.ident("EAX"), mem([("+", ("num", 1)), ("+", ("id", "EDI")), ("+", pe), ("-", ("num", 1))])])],
+             [B32, ("mn", "ADD", [A.ident("EAX"), mem([("+", ("id", "EDI")), dpart])])]),
+        ]
+        for nm, pv, pr in variants:
+            op_meta.append((i, nm))
+            op_cases.append({"id": str(len(op_cases)), "srcs": [A.p_program(pv), A.p_program(pr)], "reuse": False})
+    op_checked = 0
+    if op_cases:
+        res_o = lib.run_cases(op_cases, "c06o")
+        for k, (i, nm) in enumerate(op_meta):
+            r = res_o[str(k)]
+            if not r.get("calls") or len(r["calls"]) < 2 or r["calls"][0].get("panic") or r["calls"][1].get("panic"):
+                v.violation("assembler died on an expression operand", {"source": op_cases[k]["srcs"][0]})
+                continue
+            a, b = r["calls"][0], r["calls"][1]
+            if b["diag"] or b.get("parse_err"):
+                continue                      # the literal form itself is outside what gosk accepts: nothing to compare with
+            op_checked += 1
+            if a["diag"] or a.get("parse_err") or a["out"] != b["out"]:
+                v.violation("constant expression in %s position is not replaced by its value (differs from the same statement written with the literal)" % nm,
+                            {"source": op_cases[k]["srcs"][0], "literal_form": op_cases[k]["srcs"][1], "got": a["out"], "diagnosed": bool(a["diag"] or a.get("parse_err")),
+                             "want": b["out"], "value_from": "DD of the same expression = %d (judged by Spec/Arith.v)" % sval})
     for i in fails:
         v.violation("expression value differs from arithmetic specification (Spec/Arith.v)",
                     {"source": cases[i]["srcs"][0], "got": res[str(i)]["calls"][0]["out"], "position": progs[i][1]})
@@ -117,4 +164,5 @@ def run(v, tier, rng):
                   "rule": "enumerated operator/precedence/associativity trees over boundary literals (depth %d) + seeded random trees to depth 4, each placed in one of DD/DW/DB/RESB/EQU-chain/ORG; non-trivial = distinct source assembled without diagnostic" % (2 if tier == "quick" else 3),
                   "samples": [cases[0]["srcs"][0], cases[len(cases) // 2]["srcs"][0], cases[-1]["srcs"][0]],
                   "positions": hist, "correspondence_mismatches": len(bad), "spec_checked": len(ok_idx) - outside,
-                  "spec_outside_fragment(div by zero etc.)": outside, "spec_failures": len(fails), "spacing_pairs": len(sub)})
+                  "spec_outside_fragment(div by zero etc.)": outside, "spec_failures": len(fails), "spacing_pairs": len(sub),
+                  "operand_position_pairs(imm/disp vs literal form)": op_checked})
